@@ -393,7 +393,8 @@ Record jstep := mkStep {
   j_stale : option nat }.
   (* j_stale = Some i: the right DataFrame's last CTE had, before _add_ctes_to_expression renamed it, the very name of table i
      of the left side (same content, same hash).  join() keeps using that stale name (other_df.latest_cte_name). *)
-Inductive fin := FNone | FWhere (e : uexpr) | FSelect (items : list (uexpr * string)).
+Inductive fin := FNone | FWhere (e : uexpr) | FSelect (items : list (uexpr * string))
+               | FRename (old new : string).       (* withColumnRenamed; outside the theorems, tied by T3 only *)
 
 Fixpoint m_chain (c : howcfg) (s : st) (steps : list jstep) : option st :=
   match steps with
@@ -412,10 +413,23 @@ Fixpoint sp_chain (p : sp) (steps : list jstep) : option sp :=
               end
   end.
 
+(** withColumnRenamed: the implementation re-selects every current column BY NAME (the renamed ones aliased), so the
+    position-based resolution runs again; it raises when no column has the old name.  PySpark renames every column of that
+    name in place (and does nothing when there is none). *)
+Definition rename_items (old new : string) (names : list string) : list (uexpr * string) :=
+  map (fun n => (UCol (RName n), if String.eqb n old then new else n)) names.
 Definition m_fin (s : st) (f : fin) : option st :=
-  match f with FNone => Some s | FWhere e => m_where s e | FSelect its => m_select s its end.
+  match f with
+  | FNone => Some s | FWhere e => m_where s e | FSelect its => m_select s its
+  | FRename old new => if smem old (map snd (s_sel s)) then m_select s (rename_items old new (map snd (s_sel s))) else None
+  end.
 Definition sp_fin (p : sp) (f : fin) : option sp :=
-  match f with FNone => Some p | FWhere e => sp_where p e | FSelect its => sp_select p its end.
+  match f with
+  | FNone => Some p | FWhere e => sp_where p e | FSelect its => sp_select p its
+  | FRename old new =>
+      Some (mkSp (p_tabs p) (p_bases p) (p_joins p)
+                 (map (fun it : expr * string => (fst it, if String.eqb (snd it) old then new else snd it)) (p_out p)) (p_where p))
+  end.
 
 Definition m_run (c : howcfg) (L : frame) (lbase : nat) (lctes : list cmeta) (steps : list jstep) (f : fin) : option frame :=
   match m_chain c (init_st L lbase lctes) steps with
